@@ -312,6 +312,11 @@ func c05Run(c *fw.C, caseID string) {
 	defer os.RemoveAll(base)
 	var idx int
 	fmt.Sscanf(caseID, "world:%d", &idx)
+	// pillars can be revoked 60 s after their registration (the lock period is a variable of the contract; the
+	// node's own tests shorten it as well)
+	oldLock, oldRevoke := constants.PillarEpochLockTime, constants.PillarEpochRevokeTime
+	constants.PillarEpochLockTime, constants.PillarEpochRevokeTime = 60, 1<<40
+	defer func() { constants.PillarEpochLockTime, constants.PillarEpochRevokeTime = oldLock, oldRevoke }()
 	nPillars := c05PillarCounts[idx%len(c05PillarCounts)]
 	equal := (idx/len(c05PillarCounts))%3 == 1 || idx == 3
 	world, err := simnet.MakeWorld(rand.New(rand.NewSource(r.Int63())), nPillars, 6, equal)
@@ -379,6 +384,17 @@ func c05Run(c *fw.C, caseID string) {
 		}
 		if i == 20 {
 			_, _ = P.Send(rich, types.PillarContract, types.ZnnTokenStandard, big.NewInt(0), definition.ABIPillars.PackMethodPanic(definition.DelegateMethodName, "pillar-registered-mid-run"))
+		}
+		if i == 22 || i == 24 {
+			u := world.Users[1+r.Intn(len(world.Users)-1)]
+			_, _ = P.Send(u, types.PillarContract, types.ZnnTokenStandard, big.NewInt(0), definition.ABIPillars.PackMethodPanic(definition.DelegateMethodName, "pillar-registered-mid-run"))
+		}
+		// ... and is revoked again in two worlds of three, while accounts still delegate to its name (a revocation
+		// does not touch delegations; they keep pointing at a name without an active pillar)
+		if i == 28 && idx%3 != 2 {
+			if _, err := P.Send(rich, types.PillarContract, types.ZnnTokenStandard, big.NewInt(0), definition.ABIPillars.PackMethodPanic(definition.RevokeMethodName, "pillar-registered-mid-run")); err == nil {
+				c.Count("pillar_revocations_submitted_mid_run", 1)
+			}
 		}
 		skip := 0
 		if r.Intn(6) == 0 {
@@ -1058,6 +1074,10 @@ func c05Sequential(c *fw.C, w *c05ConcWorld, n *simnet.Node, kind string) bool {
 }
 
 func c05Conc(c *fw.C, caseID string, idx int, small bool) {
+	ci := idx
+	oldLock, oldRevoke := constants.PillarEpochLockTime, constants.PillarEpochRevokeTime
+	constants.PillarEpochLockTime, constants.PillarEpochRevokeTime = 60, 1<<40
+	defer func() { constants.PillarEpochLockTime, constants.PillarEpochRevokeTime = oldLock, oldRevoke }()
 	r := c.Rand(caseID)
 	base := c.ScratchDir("c05conc")
 	defer os.RemoveAll(base)
@@ -1127,6 +1147,16 @@ func c05Conc(c *fw.C, caseID string, idx int, small bool) {
 			}
 		case 14:
 			_, _ = P.Send(rich, types.PillarContract, types.ZnnTokenStandard, big.NewInt(0), definition.ABIPillars.PackMethodPanic(definition.DelegateMethodName, "pillar-registered-mid-run"))
+		case 16, 18:
+			u := world.Users[1+r.Intn(len(world.Users)-1)]
+			_, _ = P.Send(u, types.PillarContract, types.ZnnTokenStandard, big.NewInt(0), definition.ABIPillars.PackMethodPanic(definition.DelegateMethodName, "pillar-registered-mid-run"))
+		case 24:
+			// revoked again in every second case, with accounts still delegating to its name
+			if ci%2 == 0 {
+				if _, err := P.Send(rich, types.PillarContract, types.ZnnTokenStandard, big.NewInt(0), definition.ABIPillars.PackMethodPanic(definition.RevokeMethodName, "pillar-registered-mid-run")); err == nil {
+					c.Count("pillar_revocations_submitted_mid_run", 1)
+				}
+			}
 		}
 		skip := 0
 		if r.Intn(3) != 0 {
